@@ -82,6 +82,9 @@ func contractServes(c *Contract, p string) bool {
 				return true
 			}
 		}
+		if l.Decreases != nil && hasProp(l.Decreases.Props, p) {
+			return true
+		}
 	}
 	return false
 }
@@ -159,6 +162,7 @@ func CheckCmd(args []string) int {
 	if *tier == "thorough" {
 		secs = 60
 	}
+	os.RemoveAll(filepath.Join(VerifDir, "replay", prop))
 	rr, err := RunProperty(prop, secs, *tier == "thorough", *keep)
 	if err != nil {
 		// a tree that no longer loads or whose contracts no longer resolve cannot be certified
